@@ -106,7 +106,13 @@ func (w *world) statCheck(i int) *pbt.Violation {
 	if sg.AudioCodec != a || sg.VideoCodec != v {
 		return pbt.V("stat/stale-codec", "incarnation %d (%s): StatGroup reports audio_codec=%q video_codec=%q, the current input published audio=%q video=%q%s", i, shape(in.Codecs), sg.AudioCodec, sg.VideoCodec, a, v, prev)
 	}
-	if sg.VideoWidth != wd || sg.VideoHeight != ht {
+	dimsOK := sg.VideoWidth == wd && sg.VideoHeight == ht
+	if in.Codecs.Video == "hevc" && wd > 0 {
+		// lal reports the coded size of an HEVC stream (conformance window not applied; risk register): the cropped size
+		// rounded up to the coding block size
+		dimsOK = sg.VideoWidth >= wd && sg.VideoWidth < wd+64 && sg.VideoHeight >= ht && sg.VideoHeight < ht+64
+	}
+	if !dimsOK {
 		return pbt.V("stat/stale-dimensions", "incarnation %d (%s): StatGroup reports %dx%d, the current input's sequence header says %dx%d%s", i, shape(in.Codecs), sg.VideoWidth, sg.VideoHeight, wd, ht, prev)
 	}
 	return nil
@@ -239,7 +245,13 @@ type tsContent struct {
 	hasV  bool
 }
 
-func demuxTs(data []byte) (*tsContent, error) {
+// demuxTsLive is demuxTs for a stream that was cut by closing the connection:
+// the last PES may be incomplete.
+func demuxTsLive(data []byte) (*tsContent, error) { return demuxTsOpt(data[:len(data)/188*188], true) }
+
+func demuxTs(data []byte) (*tsContent, error) { return demuxTsOpt(data, false) }
+
+func demuxTsOpt(data []byte, cut bool) (*tsContent, error) {
 	if len(data)%188 != 0 {
 		return nil, fmt.Errorf("%d bytes are not a whole number of 188-byte packets", len(data))
 	}
@@ -249,7 +261,12 @@ func demuxTs(data []byte) (*tsContent, error) {
 	}
 	for _, pr := range res.Problems {
 		switch pr.Kind {
-		case "pes-length-mismatch", "pes-no-start-code", "pes-truncated", "pes-header-overflow", "pes-pts-dts-flags", "af-length", "af-overflow":
+		case "pes-length-mismatch", "pes-truncated":
+			if cut {
+				continue
+			}
+			return nil, fmt.Errorf("%s", pr.String())
+		case "pes-no-start-code", "pes-header-overflow", "pes-pts-dts-flags", "af-length", "af-overflow":
 			return nil, fmt.Errorf("%s", pr.String())
 		}
 	}
@@ -288,6 +305,13 @@ func firstMissing(hay []byte, ns []needle) (int, bool) {
 	}
 	return 0, false
 }
+
+// pushCloseGuard bounds the wait for a push target to see the close of a
+// connection that lal has already closed (Dispose is synchronous inside the
+// teardown that has finished; healthy: < 1 ms on loopback).  A timeout is
+// reported only if the goroutine dump still shows the read loop of lal's push
+// client session.
+const pushCloseGuard = 5 * time.Second
 
 // ---------------------------------------------------------------------------
 // after the input has gone
@@ -382,15 +406,17 @@ func (w *world) afterEnd(i, incStart int, before recSnapshot, fsMark int) *pbt.V
 	for _, pc := range w.pushes {
 		select {
 		case <-pc.closed:
-		case <-time.After(lalclient.DeliverTimeout):
-			st := allStacks()
-			if strings.Contains(st, "rtmp.(*ClientSession)") || strings.Contains(st, "connection.(*connection)") {
-				return pbt.V("push/not-closed", "%s: %v after the teardown finished, push target %d (%s) has not seen its connection closed (%d media messages received); a client session goroutine of lal is still alive", who, lalclient.DeliverTimeout, pc.stubIdx, w.stubs[pc.stubIdx].Addr, len(pc.c.MediaSnapshot()))
+		case <-time.After(pushCloseGuard):
+			if strings.Contains(allStacks(), "rtmp.(*ClientSession).") {
+				return pbt.V("push/not-closed", "%s: %v after the teardown finished, push target %d (%s) has not seen its connection closed (%d media messages received); the read loop of lal's push client session is still running", who, pushCloseGuard, pc.stubIdx, w.stubs[pc.stubIdx].Addr, len(pc.c.MediaSnapshot()))
 			}
 			lalclient.Harness("push target %d did not see a close, but no lal client goroutine is alive", pc.stubIdx)
 		}
 	}
 	w.pushes = nil
+	if v := w.latePushes(i, who); v != nil {
+		return v
+	}
 
 	// HTTP-TS consumers that are still attached (lal keeps them when the input was closed or kicked): the final audio
 	// flush reaches them
@@ -594,7 +620,7 @@ func (w *world) tsPendingAudio(a *attached, i, incStart int, who string, aNeed [
 		return nil
 	}
 	has := func(body []byte) bool {
-		tc, err := demuxTs(body[:len(body)/188*188])
+		tc, err := demuxTsLive(body)
 		return err == nil && bytes.Contains(tc.audio, last.data)
 	}
 	// quick path: it arrives; otherwise wait until nothing is in flight any more
@@ -612,7 +638,7 @@ func (w *world) tsPendingAudio(a *attached, i, incStart int, who string, aNeed [
 	}
 	// gate passed before the last audio frame was published? (something published earlier has arrived)
 	body := a.ts.Body()
-	tc, err := demuxTs(body[:len(body)/188*188])
+	tc, err := demuxTsLive(body)
 	if err != nil {
 		return nil // judged when the consumer leaves
 	}
@@ -687,7 +713,7 @@ func (w *world) checkTsConsumer(a *attached, body []byte) *pbt.Violation {
 	if len(body) == 0 {
 		return nil
 	}
-	tc, err := demuxTs(body[:len(body)/188*188])
+	tc, err := demuxTsLive(body)
 	if err != nil {
 		return pbt.V("http-ts/unparseable", "%s: %v", who, err)
 	}
@@ -702,6 +728,71 @@ func (w *world) checkTsConsumer(a *attached, body []byte) *pbt.Violation {
 		}
 		if tc.vType != want {
 			return pbt.V("inherited/ts-program-map", "%s: the program map announces video stream type %#x, the incarnation it joined publishes %s", who, tc.vType, cd.Video)
+		}
+	}
+	return nil
+}
+
+// latePushes: relay pushes that were still connecting when the input left.  The
+// targets answer now; a push session that comes up for a stream without input
+// must be closed like the established ones (nothing else would close it: the
+// teardown of the input has already run).
+func (w *world) latePushes(i int, who string) *pbt.Violation {
+	late := w.late
+	w.late = nil
+	for li, sc := range late {
+		ready := make(chan error, 1)
+		closed := make(chan struct{})
+		go func() {
+			err := sc.Handshake()
+			if err == nil {
+				err = sc.ServeUntilPlayOrPublish()
+			}
+			if err == nil && sc.Command == "publish" {
+				err = sc.AcceptPublish()
+			}
+			ready <- err
+			if err == nil {
+				sc.CollectMedia()
+			}
+			close(closed)
+		}()
+		select {
+		case err := <-ready:
+			if err != nil {
+				continue // lal gave the connection up meanwhile (its own push timeout, or it closed on teardown): closed
+			}
+		case <-time.After(lalclient.IdleTimeout):
+			lalclient.Harness("late push handshake with stub did not finish")
+		}
+		// the stub has accepted the publish: lal's push session is up.  It must be closed.
+		g := w.group()
+		registeredSince := time.Time{}
+		deadline := time.Now().Add(lalclient.DeliverTimeout)
+	wait:
+		for {
+			select {
+			case <-closed:
+				break wait
+			case <-time.After(2 * time.Millisecond):
+			}
+			// corroboration by lal's own state: a push session registered on a group that has no input
+			if g != nil && !g.HasInSession() && g.OutSessionNum() > w.attachedSubs() {
+				if registeredSince.IsZero() {
+					registeredSince = time.Now()
+				}
+				if time.Since(registeredSince) > 2*time.Second {
+					return pbt.V("push/late-session-not-closed", "%s: push target %d answered the RTMP handshake after the input had left; lal completed the publish and has kept the push session registered on the input-less group for %v (in=%v, out sessions=%d, subscribers=%d) instead of closing it", who, li, time.Since(registeredSince).Round(time.Millisecond), g.HasInSession(), g.OutSessionNum(), w.attachedSubs())
+				}
+			} else {
+				registeredSince = time.Time{}
+			}
+			if time.Now().After(deadline) {
+				if strings.Contains(allStacks(), "rtmp.(*ClientSession).") {
+					return pbt.V("push/late-session-not-closed", "%s: push target %d answered the RTMP handshake after the input had left; %v later the connection is still open (the read loop of lal's push client session is still running)", who, li, lalclient.DeliverTimeout)
+				}
+				lalclient.Harness("late push: no close seen, no lal client goroutine alive")
+			}
 		}
 	}
 	return nil
